@@ -493,7 +493,10 @@ def c08_configs(big):
         cfgs.append(Config("r3", ("A", "B"), {"s1": [stmt("rd", "A"), stmt("sel", "B")],
                                              "s2": [stmt("ins", "A", {7}), stmt("del", "B", {4})]},
                            {"A": [{1, 2}, {3}], "B": [{4}, {5}]}, passes=1))
-        cfgs.append(Config("r4", ("A",), {"s1": [stmt("rd", "A")], "s2": [stmt("dt", "A")]}, A, passes=0))
+        # (a reader racing DROP TABLE is not a C08 configuration: a reader bound before the DROP and pinned after it
+        # sees an empty table -- the recorded finding F22 of C10 -- and Secondary.tla has that behaviour for storage-API
+        # readers in every reading, so `Serializable` cannot be an invariant of the ideal reading there; the files of a
+        # dropped table under a pinned reader are covered by r1-r3, r5 through the same deferred-deletion path)
         cfgs.append(Config("r5", ("A",), {"s1": [stmt("rd", "A")], "s2": [stmt("ins", "A", {7}), stmt("ins", "A", {8})]},
                            A, passes=2))
     return cfgs
